@@ -177,7 +177,7 @@ def run(ctx, replay=None):
     exhaustive = ['q', 'g2', 't1120'] if quick else ['q', 'q3', 'g2', 't111x', 't1120', 't3111', 't1111', 'm2', 'w2']
     graph_cfgs = {'q': 14, 'g2': 14, 't1120': 400} if quick else \
                  {'q': 14, 'q3': 16, 'g2': 14, 't111x': 400, 't1120': 400, 't3111': 400, 't1111': 400}
-    max_paths = {'q': 2500, 'g2': 1500} if quick else {'q3': 5000}
+    max_paths = {'q': 1600, 'g2': 1000} if quick else {'q3': 5000}
     sim_cfgs = [] if quick else [('s', 60, 40), ('sw', 60, 40)]
     old_cfgs = ['oldDup'] if quick else list(OLD)
     all_traces = []
